@@ -136,3 +136,27 @@ Proof. destruct e; simpl; [apply queues_upd_chan|reflexivity]. Qed.
 Lemma fold_left_preserves {A S} (I : S -> Prop) (f : S -> A -> S) l :
   (forall s a, I s -> I (f s a)) -> forall s, I s -> I (fold_left f l s).
 Proof. intros Hf. induction l as [|a t IH]; simpl; auto. Qed.
+
+(* ------------------------------------------------------------------ *)
+(* Queue.PopQos success: what the record keeps *)
+Lemma popped_call rest qu : exists b, popped rest qu = (qu <| q_ready := rest |> <| q_len ::= Z.pred |> <| q_mready ::= Z.pred |> <| q_call := b |>).
+Proof.
+  unfold popped, call_consumers. destruct rest as [|r rest'].
+  - exists (q_call qu). destruct qu; reflexivity.
+  - destruct (q_active _) eqn:E.
+    + exists true. reflexivity.
+    + exists (q_call qu). destruct qu; reflexivity.
+Qed.
+Lemma q_ready_popped rest qu : q_ready (popped rest qu) = rest.
+Proof. destruct (popped_call rest qu) as [b ->]. reflexivity. Qed.
+Lemma q_len_popped rest qu : q_len (popped rest qu) = Z.pred (q_len qu).
+Proof. destruct (popped_call rest qu) as [b ->]. reflexivity. Qed.
+Lemma q_mready_popped rest qu : q_mready (popped rest qu) = Z.pred (q_mready qu).
+Proof. destruct (popped_call rest qu) as [b ->]. reflexivity. Qed.
+Lemma popped_keeps rest qu :
+  q_id (popped rest qu) = q_id qu /\ q_owner (popped rest qu) = q_owner qu /\ q_excl (popped rest qu) = q_excl qu /\
+  q_autodel (popped rest qu) = q_autodel qu /\ q_durable (popped rest qu) = q_durable qu /\ q_active (popped rest qu) = q_active qu /\
+  q_consumers (popped rest qu) = q_consumers qu /\ q_cexcl (popped rest qu) = q_cexcl qu /\
+  q_wasconsumed (popped rest qu) = q_wasconsumed qu /\ q_rr (popped rest qu) = q_rr qu /\
+  q_munacked (popped rest qu) = q_munacked qu /\ q_mtotal (popped rest qu) = q_mtotal qu.
+Proof. destruct (popped_call rest qu) as [b ->]. cbn. repeat split. Qed.
